@@ -10,7 +10,7 @@ import numpy as np
 import pandas as pd
 
 from vmc import alpha, build, fixtures as fx, h5ref, models
-from vmc.core import scratch
+from vmc.core import scratch, seamprobe
 from vmc.core.rec import HarnessError
 
 ID = "C02"
@@ -78,7 +78,18 @@ def units(tier):
 
 
 # ---- function level ------------------------------------------------------------------------------
+def _index_probe():
+    import cooler.create._create as Cm
+    Cm.rlencode
+    Cm.index_pixels({"bin1_id": np.array([0], dtype=np.int64)}, 1, 1)
+    Cm.index_bins({"chrom": np.array([0], dtype=np.int32)}, 1, 1)
+    from cooler.util import rlencode
+    rlencode(np.array([0, 0, 1], dtype=np.int64), 2)
+
+
 def _rle(R, unit, only):
+    if not seamprobe.internal_ok(R, "C02:index-builders", _index_probe):
+        return
     from cooler.util import rlencode
     arrs = [a for L in range(0, 8) for a in itertools.product((0, 1, 2), repeat=L)][unit["lo"]:unit["hi"]]
     R.add("states", len(arrs))
@@ -111,9 +122,9 @@ def _rle(R, unit, only):
 
 
 def _index(R, nb, only):
+    if not seamprobe.internal_ok(R, "C02:index-builders", _index_probe):
+        return
     import cooler.create._create as Cm
-    if not hasattr(Cm, "rlencode") or not hasattr(Cm, "index_pixels") or not hasattr(Cm, "index_bins"):
-        raise HarnessError("seam missing: cooler.create._create.rlencode / index_pixels / index_bins")
     orig = Cm.rlencode
     R.add("traces")
     seqs = [s for L in range(0, 7) for s in itertools.combinations_with_replacement(range(nb), L)]
@@ -646,10 +657,7 @@ def _manycontigs(R, route, only):
 
 
 def seams():
-    import cooler.create._create as Cm
-    for a in ("rlencode", "index_pixels", "index_bins"):
-        if not hasattr(Cm, a):
-            raise HarnessError("seam missing: cooler.create._create." + a)
+    pass    # the index-builder legs probe their internal entry points themselves and are skipped (recorded as a cap) if those were refactored
 
 
 def run(unit, R, tier, only=None):
